@@ -1092,9 +1092,9 @@ class PandasModelBase(
         self.drop_indices(res)
         if scratch_col is not None:
             del res[scratch_col]
-        on_a_set = set(op.on_a)
         for c in common_cols:
-            if c not in on_a_set:
+            # merge folds a same-named key pair into one column; every other shared column has a suffixed right copy
+            if (c + right_suffix) in res.columns:
                 is_null = res[c].isnull()
                 res.loc[is_null, c] = res.loc[is_null, c + right_suffix]
                 res = res.drop(c + right_suffix, axis=1, inplace=False)
